@@ -223,3 +223,185 @@ def run_counter_sync(prog, tier, repo):
                 res.ok(key, b.loc(ct[7]), 'counter synchronised into the heap on every path before the next counter or return')
     res.floor('temp counters created', n, 2)
     return [res]
+
+
+# ---------------------------------------------------------------------------------------------------------------------
+# REENTRANT-RESTORE (C03 / C06)
+#
+# A method that overwrites a field of its `&mut` receiver and then re-enters itself (directly, through its call family,
+# through a closure it builds, or by handing the receiver to a caller-supplied closure) has made that field a dynamically
+# scoped context: the nested invocation sees the override, and the code that runs after the nested invocation - in this
+# invocation and in every enclosing one - must see the value from before. So on every path from the override to the
+# return, the last write to the field must put back a value that was read from the field before the override.
+# (wasm lowering: a `break` of the outer loop lowered after an inner loop unwraps the loop context.)
+
+REENTRANT_EXEMPT = {
+    # the field is an accumulator, not a scoped context: comments already collected are appended to what is pending and the
+    # whole list is consumed by the next token
+    ('samlang_parser::source_parser::expression_parser::parse_base_expression', 'pending_comments'):
+        'accumulator of pending comments (the old value is appended into the new one)',
+}
+
+
+def _recv_field(b, pl):
+    if 1 <= pl.local <= b.nargs and b.locals[pl.local].k == 'ref' and len(pl.proj) == 2 and pl.proj[0][0] == 'd' \
+            and pl.proj[1][0] == 'f':
+        return (pl.local, pl.proj[1][4])
+    return None
+
+
+def run_reentrant_restore(prog, tier, repo, crates=('samlang_compiler', 'samlang_checker')):
+    from ..cfg import single_def
+    res = RuleResult('REENTRANT-RESTORE', 'a receiver field overwritten before a re-entrant call is restored, on every path to '
+                     'the return, from a value read out of it before the overwrite (dynamic scoping of lowering / checking '
+                     'contexts such as the current loop)')
+    reach = {}
+
+    def reach_of(i):
+        if i in reach:
+            return reach[i]
+        seen = set()
+        st = [i]
+        while st:
+            x = st.pop()
+            bb = prog.bodies.get(x)
+            if not bb:
+                continue
+            for r in body_refs(bb):
+                if r not in seen:
+                    seen.add(r)
+                    st.append(r)
+        reach[i] = seen
+        return seen
+    n_inst = 0
+    for b in prog.bodies.values():
+        if not b.crate.startswith('samlang') or b.kind == 'closure':
+            continue
+        cfg = cfg_of(b)
+        # events per block in statement order: ('save', field, local) ('write', field, value-operand|None, via)
+        writes = []
+        for bi in sorted(cfg.reach):
+            bl = b.blocks[bi]
+            if bl.cleanup:
+                continue
+            for si, st in enumerate(bl.stmts):
+                if st[0] == 'a':
+                    rf = _recv_field(b, st[1])
+                    if rf:
+                        writes.append((bi, si, rf, st[2], st[3]))
+        if not writes:
+            continue
+
+        def saved_from(op, rf, wpos, depth=0):
+            """is operand op (through whole-local copies) a value read from receiver field rf before position wpos?"""
+            if op[0] not in ('c', 'm') or depth > 6:
+                return False
+            pl = op[1]
+            if pl.proj:
+                return False
+            sd = single_def(b, pl.local)
+            if not sd:
+                return False
+            if sd[1] == 'term':
+                t = sd[2]
+                nm = (callee(t)[1] or '').split('::')[-1]
+                if nm in ('clone', 'dupe') and t[3]:
+                    r0 = t[3][0]
+                    if r0[0] in ('c', 'm') and not r0[1].proj:
+                        rd = single_def(b, r0[1].local)
+                        if rd and rd[1] != 'term' and rd[2][0] == 'ref' and _recv_field(b, rd[2][2]) == rf:
+                            return sd[0] != wpos[0] and cfg.nodes_dominate([sd[0]], wpos[0])
+                return False
+            rv = sd[2]
+            if rv[0] == 'use' and rv[1][0] in ('c', 'm'):
+                if _recv_field(b, rv[1][1]) == rf:
+                    # the read must happen before the override
+                    if sd[0] == wpos[0]:
+                        return sd[1] < wpos[1]
+                    return cfg.nodes_dominate([sd[0]], wpos[0])
+                return saved_from(rv[1], rf, wpos, depth + 1)
+            return False
+        for (bi, si, rf, rv, line) in writes:
+            key_sym = (b.id, rf[1])
+            # is there a re-entrant transfer after this write?
+            later = cfg.reachable(bi)
+            reentry = None
+            for bj in sorted(later):
+                refs = []
+                for k2, st2 in enumerate(b.blocks[bj].stmts):
+                    if bj == bi and k2 <= si:
+                        continue
+                    if st2[0] == 'a' and st2[2][0] == 'agg' and st2[2][1][0] == 'closure':
+                        refs.append((st2[2][1][1], st2[3]))
+                t = b.blocks[bj].term
+                if t[0] == 'call':
+                    cid, cname = callee(t)
+                    if cid and (cname or '').split('::')[-1] not in ('call_once', 'call_mut', 'call'):
+                        refs.append((cid, t[7]))
+                    elif (cname or '').split('::')[-1] in ('call_once', 'call_mut', 'call'):
+                        # caller-supplied closure: re-entrant when it is handed the receiver
+                        for o in t[3]:
+                            r_, _p = operand_root(b, o)
+                            if r_ == rf[0]:
+                                refs.append((b.id, t[7]))
+                        for o in t[3]:
+                            if o[0] in ('c', 'm') and not o[1].proj:
+                                sdd = single_def(b, o[1].local)
+                                if sdd and sdd[1] != 'term' and sdd[2][0] == 'agg' and sdd[2][1][0] == 'tuple':
+                                    for oo in sdd[2][2]:
+                                        r_, _p = operand_root(b, oo)
+                                        if r_ == rf[0]:
+                                            refs.append((b.id, t[7]))
+                for cid, ln in refs:
+                    if cid == b.id or b.id in reach_of(cid):
+                        reentry = ln
+                        break
+                if reentry:
+                    break
+            if not reentry:
+                continue
+            if rv[0] == 'use' and saved_from(rv[1], rf, (bi, si)):
+                continue        # this write is itself a restore
+            if key_sym in REENTRANT_EXEMPT:
+                continue
+            if b.crate not in crates:
+                continue
+            n_inst += 1
+            key = f'{b.id}:{rf[1]}'
+            # every path from the override to return passes a restoring write
+            restores = set()
+            same_block_restore = False
+            for (bj, sj, rf2, rv2, l2) in writes:
+                if rf2 != rf or (bj, sj) == (bi, si):
+                    continue
+                if rv2[0] == 'use' and saved_from(rv2[1], rf, (bi, si)):
+                    if bj == bi and sj > si:
+                        same_block_restore = True
+                    elif bj != bi:
+                        restores.add(bj)
+            # the last write on each path must be a restore: remove non-restoring later writes' blocks from consideration by
+            # checking that after each non-restoring write a restore still post-dominates
+            ok = same_block_restore or cfg.nodes_postdominate(restores, bi) if restores or same_block_restore else False
+            bad_after = None
+            if ok:
+                for (bj, sj, rf2, rv2, l2) in writes:
+                    if rf2 != rf or (bj, sj) == (bi, si) or bj not in later:
+                        continue
+                    if rv2[0] == 'use' and saved_from(rv2[1], rf, (bi, si)):
+                        continue
+                    # another non-restoring write after the override: a restore must follow it as well
+                    if not (cfg.nodes_postdominate(restores - {bj}, bj) or any(
+                            (bk == bj and sk > sj) for (bk, sk, rf3, rv3, l3) in writes
+                            if rf3 == rf and rv3[0] == 'use' and saved_from(rv3[1], rf, (bi, si)))):
+                        ok = False
+                        bad_after = l2
+            if ok:
+                res.ok(key, b.loc(line), f'{b.name}: `{rf[1]}` overridden at line {line}, re-entered at line {reentry}, restored from a '
+                       f'saved copy on every path to the return')
+            else:
+                res.violation(key, b.loc(line), f'{b.name}: receiver field `{rf[1]}` is overwritten at line {line} and the function is '
+                              f're-entered afterwards (line {reentry}), but some path to the return does not put back the value '
+                              f'the field had before' + (f' (line {bad_after} writes something else last)' if bad_after else '') +
+                              '; code after a nested construct then runs with the wrong (or no) context')
+    res.floor('re-entrant overrides', n_inst, len([c for c in crates if c in ('samlang_compiler', 'samlang_checker')]))
+    return [res]
